@@ -377,4 +377,90 @@ theorem goldPick_mem {n : Nat} (f : Fin n → K → K) (s : GoldSt K n) (i : Fin
   · right; rfl
   · left; rfl
 
+/-! ## assembled specifications -/
+
+theorem bisect_iterate_steps {n : Nat} (f : Fin n → K → K) (s : BisectSt K n) (k : Nat) :
+    ((bisectStep f)^[k] s).steps = s.steps + k := by
+  induction k with
+  | zero => rfl
+  | succ k ih =>
+    rw [Function.iterate_succ_apply']
+    show ((bisectStep f)^[k] s).steps + 1 = _
+    rw [ih]; omega
+
+theorem bisect_spec {n : Nat} (f : Fin n → K → K) (a0 b0 : Vec K n) (xtol ftol : K) (maxiter : Nat) (rc : Bool)
+    (x : Vec K n) (s : BisectSt K n) (h : bisect f a0 b0 xtol ftol maxiter rc = .ok (x, s)) (i : Fin n)
+    (h0 : a0 i ≤ b0 i) (hs : f i (a0 i) * f i (b0 i) ≤ 0) :
+    a0 i ≤ s.a i ∧ s.a i ≤ s.b i ∧ s.b i ≤ b0 i ∧ f i (s.a i) * f i (s.b i) ≤ 0 ∧
+    (x i = s.a i ∨ x i = s.b i) ∧ a0 i ≤ x i ∧ x i ≤ b0 i ∧ s.steps ≤ maxiter ∧
+    (s.steps < maxiter → s.xerr ≤ xtol ∧ s.ferr ≤ ftol ∧ s.b i - s.a i ≤ xtol ∧ |x i - s.a i| ≤ xtol ∧ |x i - s.b i| ≤ xtol) := by
+  unfold bisect at h
+  simp only at h
+  split at h
+  · cases h
+  · simp only [Except.ok.injEq, Prod.mk.injEq] at h
+    obtain ⟨hx, hs'⟩ := h
+    obtain ⟨k, hk, he, hexit⟩ := bisectLoop_iterate f xtol ftol maxiter (bisectInit f a0 b0)
+    have hinv := bisect_iterate_inv f a0 b0 i h0 hs k
+    rw [← he, hs'] at hinv
+    have hsteps : s.steps = k := by
+      rw [← hs', he, bisect_iterate_steps]; simp [bisectInit]
+    have hpick : x i = s.a i ∨ x i = s.b i := by
+      rw [← hx, hs']; exact bisectPick_mem s i
+    have hxlo : a0 i ≤ x i := by rcases hpick with e | e <;> rw [e] <;> linarith [hinv.lo, hinv.mid]
+    have hxhi : x i ≤ b0 i := by rcases hpick with e | e <;> rw [e] <;> linarith [hinv.hi, hinv.mid]
+    refine ⟨hinv.lo, hinv.mid, hinv.hi, ?_, hpick, hxlo, hxhi, by omega, ?_⟩
+    · have := hinv.sign; exact this
+    · intro hlt
+      rcases hexit with hk' | ⟨hxe, hfe, hkpos⟩
+      · omega
+      · rw [hs'] at hxe hfe
+        have hw : s.b i - s.a i ≤ xtol := by
+          obtain ⟨j, rfl⟩ : ∃ j, k = j + 1 := ⟨k - 1, by omega⟩
+          have hb := bisectStep_xerr f ((bisectStep f)^[j] (bisectInit f a0 b0)) i
+          rw [← Function.iterate_succ_apply' (bisectStep f), ← he, hs'] at hb
+          exact le_trans (le_trans (le_abs_self _) hb) hxe
+        have hm := hinv.mid
+        refine ⟨hxe, hfe, hw, ?_, ?_⟩
+        · rcases hpick with e | e <;> rw [e]
+          · simp; linarith
+          · rw [abs_of_nonneg (by linarith)]; exact hw
+        · rcases hpick with e | e <;> rw [e]
+          · rw [abs_sub_comm, abs_of_nonneg (by linarith)]; exact hw
+          · simp; linarith
+
+theorem golden_spec {n : Nat} (gr : K) (hg1 : 1 / 2 < gr) (hg2 : gr < 1) (f : Fin n → K → K) (a0 b0 : Vec K n)
+    (xtol : K) (maxiter : Nat) (hmax : 0 < maxiter) (i : Fin n) (xs : K) (hab : a0 i < b0 i)
+    (hu : Unimodal (f i) (a0 i) (b0 i) xs) :
+    let out := golden gr f a0 b0 none xtol maxiter
+    ∃ k, k < maxiter ∧ a0 i ≤ out.2.a i ∧ out.2.a i ≤ xs ∧ xs ≤ out.2.b i ∧ out.2.b i ≤ b0 i ∧
+      out.2.b i - out.2.a i = gr ^ (k + 1) * (b0 i - a0 i) ∧
+      (out.1 i = out.2.a i ∨ out.1 i = out.2.b i) ∧ |out.1 i - xs| ≤ gr ^ (k + 1) * (b0 i - a0 i) ∧
+      (k + 1 = maxiter ∨ (out.2.xerr ≤ xtol ∧ |out.1 i - xs| ≤ xtol)) := by
+  intro out
+  obtain ⟨k, hk, ea, eb, ex, hexit⟩ := goldLoop_iterate gr f xtol maxiter (goldInit gr a0 b0 none) hmax
+  have hinv := gold_iterate_inv gr hg1 hg2 f a0 b0 i xs hab hu k
+  obtain ⟨q1, q2, _, _, q5, q6, q7, q8⟩ := goldShrink_inv gr hg1 hg2 f _ i (a0 i) (b0 i) xs _ hu hinv
+  have hA : out.2.a i = (goldShrink f ((fun s => goldPoints gr (goldShrink f s))^[k] (goldInit gr a0 b0 none))).a i :=
+    congrFun ea i
+  have hB : out.2.b i = (goldShrink f ((fun s => goldPoints gr (goldShrink f s))^[k] (goldInit gr a0 b0 none))).b i :=
+    congrFun eb i
+  have hw : out.2.b i - out.2.a i = gr ^ (k + 1) * (b0 i - a0 i) := by
+    rw [hA, hB, q8, pow_succ]; ring
+  have hpick : out.1 i = out.2.a i ∨ out.1 i = out.2.b i := goldPick_mem f out.2 i
+  have hdist : |out.1 i - xs| ≤ out.2.b i - out.2.a i := by
+    rw [← hA] at q6; rw [← hB] at q7
+    rcases hpick with e | e <;> rw [e, abs_le] <;> constructor <;> linarith
+  refine ⟨k, hk, by rw [hA]; exact q1, by rw [hA]; exact q6, by rw [hB]; exact q7, by rw [hB]; exact q2, hw, hpick,
+    by rw [← hw]; exact hdist, ?_⟩
+  rcases hexit with h | h
+  · exact Or.inl h
+  · right
+    refine ⟨h, le_trans hdist ?_⟩
+    have hxerr : |out.2.b i - out.2.a i| ≤ out.2.xerr := by
+      have e4 := (goldShrink_elem f ((fun s => goldPoints gr (goldShrink f s))^[k] (goldInit gr a0 b0 none)) i).2.2.2
+      rw [show out.2.xerr = _ from ex, e4, hA, hB]
+      exact le_vmaxAbs (fun j => (goldShrink f _).b j - (goldShrink f _).a j) i
+    exact le_trans (le_trans (le_abs_self _) hxerr) h
+
 end Scico.LinSolve
